@@ -69,6 +69,9 @@ size_t g_mt_foreach_calls;
         GHOST_RESET_COMMON();                                                                                          \
         GHOST_RESET_ALLOC();                                                                                           \
         g_mt_locked = false;                                                                                           \
+        /* NOTE for contract writers: DFCC havocs a pointer-typed assigns target of a REPLACED contract with ONE fixed    \
+         * invalid pointer; `ensures(g == p)` then pins that pointer, and a second replaced call on the same path with a  \
+         * different p makes the path infeasible (silently: only the canaries notice).  Use __CPROVER_pointer_equals. */  \
         g_mt_stack_on = false;                                                                                         \
         g_mt_pq = NULL;                                                                                                \
         g_mt_stack_info = NULL;                                                                                        \
@@ -97,7 +100,7 @@ __CPROVER_ensures(__CPROVER_return_value == AWS_OP_SUCCESS && !g_mt_locked)
 int aws_mutex_init(struct aws_mutex *mutex)
 __CPROVER_requires(__CPROVER_w_ok(mutex, sizeof(*mutex)))
 __CPROVER_assigns(*mutex, g_mt_mutex)
-__CPROVER_ensures(__CPROVER_return_value == AWS_OP_SUCCESS && g_mt_mutex == mutex)
+__CPROVER_ensures(__CPROVER_return_value == AWS_OP_SUCCESS && __CPROVER_pointer_equals(g_mt_mutex, mutex))
 ;
 void aws_mutex_clean_up(struct aws_mutex *mutex)
 __CPROVER_requires(mutex == g_mt_mutex)
